@@ -17,6 +17,7 @@ pub struct BlockModeError;
 pub struct CborSerError;
 pub struct CborDeError;
 pub struct ParseIntError;
+impl ParseIntError { #[verifier::external_body] pub fn to_string(&self) -> String { unimplemented!() } }
 pub use std::array::TryFromSliceError;
 #[verifier::external_type_specification] #[verifier::external_body] pub struct ExTryFromSliceError(std::array::TryFromSliceError);
 
@@ -35,6 +36,7 @@ pub open spec fn be32(x: u32) -> Seq<u8> { seq![ (x>>24) as u8, (x>>16) as u8, (
 pub open spec fn be64(x: u64) -> Seq<u8> { seq![ (x>>56) as u8, (x>>48) as u8, (x>>40) as u8, (x>>32) as u8, (x>>24) as u8, (x>>16) as u8, (x>>8) as u8, x as u8 ] }
 pub open spec fn un_le16(s: Seq<u8>) -> u16 { (s[0] as u16) | ((s[1] as u16) << 8) }
 pub open spec fn un_le32(s: Seq<u8>) -> u32 { (s[0] as u32) | ((s[1] as u32) << 8) | ((s[2] as u32) << 16) | ((s[3] as u32) << 24) }
+pub open spec fn un_be32(s: Seq<u8>) -> u32 { (s[3] as u32) | ((s[2] as u32) << 8) | ((s[1] as u32) << 16) | ((s[0] as u32) << 24) }
 pub open spec fn un_le64(s: Seq<u8>) -> u64 { (s[0] as u64) | ((s[1] as u64) << 8) | ((s[2] as u64) << 16) | ((s[3] as u64) << 24) | ((s[4] as u64) << 32) | ((s[5] as u64) << 40) | ((s[6] as u64) << 48) | ((s[7] as u64) << 56) }
 
 pub trait LeBytesV { type Out; fn to_le_bytes_v(self) -> Self::Out; }
@@ -64,7 +66,7 @@ pub trait WriteBytesExt {
     spec fn wview(&self) -> Seq<u8>;
     fn write_u8(&mut self, n: u8) -> (r: Result<(), IoError>) ensures r is Ok, final(self).wview() == old(self).wview() + seq![n];
     fn write_u16<T: ByteOrder>(&mut self, n: u16) -> (r: Result<(), IoError>) ensures r is Ok, T::is_le() ==> final(self).wview() == old(self).wview() + le16(n);
-    fn write_u32<T: ByteOrder>(&mut self, n: u32) -> (r: Result<(), IoError>) ensures r is Ok, T::is_le() ==> final(self).wview() == old(self).wview() + le32(n);
+    fn write_u32<T: ByteOrder>(&mut self, n: u32) -> (r: Result<(), IoError>) ensures r is Ok, T::is_le() ==> final(self).wview() == old(self).wview() + le32(n), !T::is_le() ==> final(self).wview() == old(self).wview() + be32(n);
     fn write_i32<T: ByteOrder>(&mut self, n: i32) -> (r: Result<(), IoError>) ensures r is Ok, T::is_le() ==> final(self).wview() == old(self).wview() + le32(n as u32);
     fn write_u64<T: ByteOrder>(&mut self, n: u64) -> (r: Result<(), IoError>) ensures r is Ok, T::is_le() ==> final(self).wview() == old(self).wview() + le64(n);
 }
@@ -92,3 +94,34 @@ pub trait TryIntoArrV<const N: usize>: Sized { spec fn tia(&self) -> Seq<u8>;
 pub open spec fn arr_view<const N: usize>(a: [u8; N]) -> Seq<u8> { a@ }
 impl<'a, const N: usize> TryIntoArrV<N> for &'a [u8] { open spec fn tia(&self) -> Seq<u8> { self@ }
     #[verifier::external_body] fn try_into_v(self) -> (r: Result<[u8; N], TryFromSliceError>) { unimplemented!() } }
+// ---- <[u8]>::chunks_exact (rule R21): successive full chunks ----
+pub struct ChunksV<'a> { pub data: &'a [u8], pub size: usize, pub pos: usize }
+pub trait ChunksExactV { spec fn cev(&self) -> Seq<u8>; fn chunks_exact_v<'a>(&'a self, size: usize) -> (r: ChunksV<'a>) requires size > 0 ensures r.data@ == self.cev(), r.size == size, r.pos == 0; }
+impl ChunksExactV for Vec<u8> { open spec fn cev(&self) -> Seq<u8> { self@ } #[verifier::external_body] fn chunks_exact_v<'a>(&'a self, size: usize) -> (r: ChunksV<'a>) { unimplemented!() } }
+impl<'a> ChunksV<'a> {
+    #[verifier::external_body] pub fn next(&mut self) -> (r: Option<&'a [u8]>)
+        ensures final(self).data == old(self).data, final(self).size == old(self).size,
+            match r { Some(c) => old(self).pos + old(self).size <= old(self).data@.len() && c@ == old(self).data@.subrange(old(self).pos as int, old(self).pos + old(self).size) && final(self).pos == old(self).pos + old(self).size,
+                      None => old(self).pos + old(self).size > old(self).data@.len() && final(self).pos == old(self).pos }
+    { unimplemented!() }
+}
+// ---- str helpers (rule R23): results are uninterpreted functions of the text ----
+pub uninterp spec fn str_ends_with(s: Seq<char>, c: char) -> bool;
+pub uninterp spec fn str_lower(s: Seq<char>) -> Seq<char>;
+pub uninterp spec fn str_trim_end(s: Seq<char>, c: char) -> Seq<char>;
+pub uninterp spec fn str_parse_u32(s: Seq<char>) -> Option<u32>;
+pub trait StrV { spec fn sv(&self) -> Seq<char>;
+    fn ends_with_v(&self, c: char) -> (r: bool) ensures r == str_ends_with(self.sv(), c);
+    fn to_lowercase_v(&self) -> (r: String) ensures r@ == str_lower(self.sv());
+    fn trim_end_matches_v(&self, c: char) -> (r: &str) ensures r@ == str_trim_end(self.sv(), c);
+    fn parse_u32_v(&self) -> (r: Result<u32, ParseIntError>) ensures match r { Ok(v) => str_parse_u32(self.sv()) == Some(v), Err(_) => str_parse_u32(self.sv()) is None }; }
+impl StrV for str { open spec fn sv(&self) -> Seq<char> { self@ }
+    #[verifier::external_body] fn ends_with_v(&self, c: char) -> (r: bool) { unimplemented!() }
+    #[verifier::external_body] fn to_lowercase_v(&self) -> (r: String) { unimplemented!() }
+    #[verifier::external_body] fn trim_end_matches_v(&self, c: char) -> (r: &str) { unimplemented!() }
+    #[verifier::external_body] fn parse_u32_v(&self) -> (r: Result<u32, ParseIntError>) { unimplemented!() } }
+impl StrV for String { open spec fn sv(&self) -> Seq<char> { self@ }
+    #[verifier::external_body] fn ends_with_v(&self, c: char) -> (r: bool) { unimplemented!() }
+    #[verifier::external_body] fn to_lowercase_v(&self) -> (r: String) { unimplemented!() }
+    #[verifier::external_body] fn trim_end_matches_v(&self, c: char) -> (r: &str) { unimplemented!() }
+    #[verifier::external_body] fn parse_u32_v(&self) -> (r: Result<u32, ParseIntError>) { unimplemented!() } }
